@@ -336,6 +336,10 @@ func (vc *VC) anchorOf(in ssa.Instruction) string {
 			if k == "" {
 				continue
 			}
+			if ci, isCall := i.(ssa.CallInstruction); isCall {
+				// a call through a renamed local function variable keeps the name the contract uses
+				k = "call:" + vc.p.contractName(fn, calleeName(ci.Common()))
+			}
 			vc.anchors[i] = fmt.Sprintf("%s#%d", k, counts[k])
 			counts[k]++
 		}
@@ -699,7 +703,7 @@ func (f *Frame) execBinOp(st *State, x *ssa.BinOp) {
 	switch x.Op {
 	case token.ADD:
 		if a.Sort == SStr {
-			r = App(SStr, "scat", a, b)
+			r = vc.env.Cat(a, b)
 		} else {
 			r = Add(a, b)
 			f.ovfCheck(st, r, x)
